@@ -6,6 +6,8 @@ GENS = ['AdaClip', 'Optim']
 RULE = ('real AdaClipDPOptimizer steps on crafted batches (per-sample gradient norms chosen around the clipping norm) with every torch.normal call recorded: '
         'the norm after the step vs clamp(C exp(-lr ((count + noise)/n - gamma))), count = #{norm_i + 1e-6 <= C}, no update on skipped steps, std of the count noise, '
         'gradient noise multiplier vs (sigma^-2 - (2 sigma_b)^-2)^(-1/2), multiplier handed to the accountant vs the nominal sigma; '
+        'and the ghost-clipping adaptive engine (PrivacyEngineAdaptiveClipping, uniform loader with a ragged last batch): count noise std = realised batch/20, '
+        'gradient noise multiplier for THAT sigma_b, gradient noise std = multiplier x the updated norm, update rule with the noisy count, accounted multiplier; '
         'non-trivial = some but not all samples are clipped; distinct by canonical JSON')
 ASSUMPTIONS = ['Andrew et al. 2021 Thm 1: a release at sigma_g plus a count release at sigma_b is one Gaussian mechanism of multiplier sigma (cited)']
 TRUSTED = ['wrapper around torch.normal recording the count noise value']
@@ -61,6 +63,61 @@ def judge(ctx, c, rr):
                 ctx.fail('accounted-sigma-inflated', 'the accountant was charged with noise multiplier %r > nominal %r (count release unaccounted)' % (rec_sigma, c['sigma']), c)
 
 
+def gen_ghost(ctx, n):
+    r = ctx.rng
+    cases = []
+    for _ in range(n):
+        B = r.choice([16, 24, 32])
+        # a uniform loader whose last batch is smaller than the expected batch size whenever B does not divide N
+        N = B * r.randint(1, 2) + r.choice([0, 12, 14])
+        cases.append({'ghost': True, 'seed': r.randint(0, 10**6), 'N': N, 'B': B, 'scale': r.choice([0.3, 1.0, 3.0]), 'sigma': r.choice([0.6, 1.0]),
+                      'C': r.choice([0.3, 1.0, 3.0]), 'q': r.choice([0.3, 0.5, 0.8]), 'lr': r.choice([0.1, 0.2, 0.5]),
+                      'minc': r.choice([1e-3, 0.5]), 'maxc': r.choice([1e3, 2.0])})
+    return cases
+
+
+def judge_ghost(ctx, c, rr):
+    if rr.get('error'):
+        ctx.fail('adaclip-harness-error', rr['error'], c)
+        return
+    for st in rr['steps']:
+        rec, n, C0, C1 = st['rec'], st['n'], st['C0'], st['C1']
+        if len(rec) < 2 or rec[0][1] != [1]:
+            ctx.fail('count-noise', 'ghost engine: expected the count draw first; recorded %s' % [(a, b) for a, b, _ in rec], c)
+            return
+        sb = rec[0][0]
+        if abs(sb - n / 20.0) > 1e-12:
+            ctx.fail('count-noise', 'ghost engine: count noise std %r, configured batch/20 = %r' % (sb, n / 20.0), c)
+        sg = (c['sigma'] ** -2 - (2 * sb) ** -2) ** -0.5
+        if abs(st['nm'] - sg) > 1e-12 * sg:
+            ctx.fail('gradient-noise-multiplier', 'ghost engine: gradient noise multiplier %r, but (sigma^-2-(2 sigma_b)^-2)^(-1/2) = %r for the sigma_b = %r '
+                     'actually used on the count (batch of %d, expected batch size %r)' % (st['nm'], sg, sb, n, st['ebs']), c)
+        for std, size, _ in rec[1:]:
+            if abs(std - sg * C1) > 1e-12 * (1 + sg * C1):
+                ctx.fail('gradient-noise-std', 'ghost engine: gradient noise std %r, expected sigma_g * clipping norm = %r' % (std, sg * C1), c)
+                break
+        z = rec[0][2]
+        cnt = sum(1 for x in st['norms'] if x <= C0)
+        want = min(max(C0 * math.exp(-c['lr'] * ((cnt + z) / n - c['q'])), c['minc']), c['maxc'])
+        if abs(C1 - want) > 1e-6 * (1 + abs(want)):
+            ctx.fail('update-rule', 'ghost engine: norm after the step %r, rule gives %r (count %d of %d, noise %r)' % (C1, want, cnt, n, z), c)
+    if rr['steps'] and rr['steps'][-1]['hist']:
+        worst = max(h[0] for h in rr['steps'][-1]['hist'])
+        if worst > c['sigma'] * (1 + 1e-12):
+            ctx.fail('ghost-accounted-sigma-inflated', 'ghost adaptive engine: the accountant was charged with noise multiplier %r > nominal %r (count release unaccounted)'
+                     % (worst, c['sigma']), c)
+
+
+def run_ghost(ctx, n):
+    cases = gen_ghost(ctx, n)
+    res = vlib.run_impl('adaptive_ghost.py', {'cases': cases}, timeout=3600)['results']
+    for c, rr in zip(cases, res):
+        nt = (not rr.get('error')) and any(0 < sum(1 for x in st['norms'] if x <= st['C0']) < st['n'] for st in rr['steps'])
+        ctx.case(c, nontrivial=nt, kind='ghost-adaptive/%s' % ('ragged' if c['N'] % c['B'] else 'even'))
+        judge_ghost(ctx, c, rr)
+    ctx.traces += len(cases)
+
+
 def run_cases(ctx, n):
     cases = gen(ctx, n)
     res = vlib.run_impl('adaclip_cases.py', {'cases': cases}, timeout=3600)['results']
@@ -74,17 +131,21 @@ def run_cases(ctx, n):
 def run(ctx, gen_status):
     vlib.check_property_file(ctx, 'C20', gen_status, GENS)
     run_cases(ctx, ctx.n(60, 1500))
+    run_ghost(ctx, ctx.n(12, 200))
 
 
 def search(ctx):
-    if all(f['key'] == 'accounted-sigma-inflated' for f in ctx.failures):
+    if all(f['key'] in ('accounted-sigma-inflated', 'ghost-accounted-sigma-inflated') for f in ctx.failures):
         return
     run_cases(ctx, 200)
+    run_ghost(ctx, 40)
 
 
 def replay_case(ctx, failure):
     c = failure['case']
     n0 = len(ctx.failures)
-    rr = vlib.run_impl('adaclip_cases.py', {'cases': [c]})['results'][0]
-    judge(ctx, c, rr)
+    if c.get('ghost'):
+        judge_ghost(ctx, c, vlib.run_impl('adaptive_ghost.py', {'cases': [c]})['results'][0])
+    else:
+        judge(ctx, c, vlib.run_impl('adaclip_cases.py', {'cases': [c]})['results'][0])
     return len(ctx.failures) == n0, ctx.failures[n0:] or 'holds'
